@@ -7,7 +7,7 @@
 //! cells; the operation is applied to the real receiver and to a rows-of-cells model of the
 //! window, and the *whole parent* is compared afterwards.
 
-use crate::elem::{Cell, Fat, Kc, K1, K20};
+use crate::elem::{Cell, Fat, Kc, K1, K16, K2, K20, K8};
 use crate::model::{stable_perm, Model};
 use crate::runner::*;
 use crate::thin::Thin;
@@ -157,6 +157,9 @@ pub enum CellKind {
     K1,
     K20,
     Fat,
+    K2,
+    K8,
+    K16,
 }
 
 #[derive(Serialize, Deserialize, Clone, Debug, PartialEq)]
@@ -179,6 +182,15 @@ pub struct GridCase {
     /// further operations applied, one after the other, to the same receiver
     #[serde(default)]
     pub more: Vec<GOp>,
+    /// spare capacity of the (root) array's buffer: 0 = exact; otherwise an amount chosen from
+    /// {1, cols-1, cols, cols+1, 2*cols, cells/2, cells, 3*cells+7} (fast paths that use the
+    /// spare capacity as scratch space)
+    #[serde(default)]
+    pub spare: u8,
+    /// non-zero: the keys are drawn from this many distinct values instead of `alphabet`
+    /// (cardinality thresholds such as "at most 256 distinct keys"); only for 16-bit-key cells
+    #[serde(default)]
+    pub wide_alphabet: u16,
 }
 impl GridCase {
     pub fn dims(&self) -> (usize, usize) {
@@ -190,12 +202,34 @@ fn us(x: u64) -> usize {
     x as usize
 }
 
+/// The order a key function induces, as an i32 (the model sorts by this).  Variants 3..7 are
+/// realised with key TYPES other than i32 by the key forms (see `by_key!`): a negative i8,
+/// `Reverse<u8>`, `Ordering`, a (bool, u8) pair, i64 next to i64::MIN.
 fn kf(k: u16, keyfn: u8) -> i32 {
-    match keyfn % 3 {
+    match keyfn % 8 {
         0 => k as i32,
         1 => -(k as i32),
-        _ => (k % 2) as i32,
+        2 => (k % 2) as i32,
+        3 => -((k & 0x7f) as i32),
+        4 => -((k & 0xff) as i32),
+        5 => k.cmp(&1) as i32,
+        6 => (k % 2) as i32 * 1000 + (k & 0xff) as i32,
+        _ => k as i32,
     }
+}
+
+/// a key-function sort with the key type selected by `f`
+macro_rules! by_key {
+    ($x:ident, $m:ident, $l:expr, $f:expr) => {
+        match $f % 8 {
+            3 => $x.$m($l, |a| -((a.key() & 0x7f) as i8)),
+            4 => $x.$m($l, |a| std::cmp::Reverse(a.key() as u8)),
+            5 => $x.$m($l, |a| a.key().cmp(&1)),
+            6 => $x.$m($l, |a| (a.key() % 2 == 1, a.key() as u8)),
+            7 => $x.$m($l, |a| i64::MIN + a.key() as i64),
+            _ => $x.$m($l, |a| kf(a.key(), $f)),
+        }
+    };
 }
 
 /// What the model expects of an operation.
@@ -405,16 +439,21 @@ fn expect(w: &Model, op: &GOp, seed: u32) -> Expect {
 
 /// Runs the operation on the real receiver. Err = panic message; Ok(Some(note)) = an in-situ
 /// oracle failure (e.g. row_pair_mut returned the wrong slices).
-fn apply<K: Cell, X: TooDeeOpsMut<K> + CopyOps<K>>(x: &mut X, op: &GOp, seed: u32) -> Result<Option<String>, String> {
-    let (c, r) = (x.num_cols(), x.num_rows());
+/// The operation, written once and instantiated for the three kinds of receiver TYPE (see
+/// `Applier`): inside a generic function only trait methods are visible, so an inherent method
+/// that a change adds to `TooDee` or `TooDeeViewMut` (and that shadows the trait method for
+/// every direct caller) would never be called.
+macro_rules! apply_body {
+    ($x:ident, $op:ident, $seed:ident, $K:ty) => {{
+    let (c, r) = ($x.num_cols(), $x.num_rows());
     catch(|| -> Option<String> {
-        match op {
-            GOp::Swap([c1, r1, c2, r2]) => x.swap((us(*c1), us(*r1)), (us(*c2), us(*r2))),
-            GOp::SwapRows(a, b) => x.swap_rows(us(*a), us(*b)),
-            GOp::SwapCols(a, b) => x.swap_cols(us(*a), us(*b)),
+        match $op {
+            GOp::Swap([c1, r1, c2, r2]) => $x.swap((us(*c1), us(*r1)), (us(*c2), us(*r2))),
+            GOp::SwapRows(a, b) => $x.swap_rows(us(*a), us(*b)),
+            GOp::SwapCols(a, b) => $x.swap_cols(us(*a), us(*b)),
             GOp::RowPairMut(a, b) => {
-                let want = if us(*a) < r && us(*b) < r { Some(((x[us(*a)].as_ptr() as usize, x[us(*a)].len()), (x[us(*b)].as_ptr() as usize, x[us(*b)].len()))) } else { None };
-                let (ra, rb) = x.row_pair_mut(us(*a), us(*b));
+                let want = if us(*a) < r && us(*b) < r { Some((($x[us(*a)].as_ptr() as usize, $x[us(*a)].len()), ($x[us(*b)].as_ptr() as usize, $x[us(*b)].len()))) } else { None };
+                let (ra, rb) = $x.row_pair_mut(us(*a), us(*b));
                 let got = ((ra.as_ptr() as usize, ra.len()), (rb.as_ptr() as usize, rb.len()));
                 if let Some(w) = want {
                     if w != got {
@@ -426,33 +465,33 @@ fn apply<K: Cell, X: TooDeeOpsMut<K> + CopyOps<K>>(x: &mut X, op: &GOp, seed: u3
                 }
                 ra.swap_with_slice(rb);
             }
-            GOp::Fill(k) => x.fill(K::make(((*k as u64) << 16) | 0xFFFF)),
+            GOp::Fill(k) => $x.fill(<$K>::make(((*k as u64) << 16) | 0xFFFF)),
             GOp::CopyFromSlice { delta, clone } => {
                 let n = ((c * r) as i64 + *delta as i64).max(0) as usize;
-                let src = src_values::<K>(n, seed);
+                let src = src_values::<$K>(n, $seed);
                 if *clone {
-                    x.clone_from_slice(&src)
+                    $x.clone_from_slice(&src)
                 } else {
-                    x.copy_from_slice(&src)
+                    $x.copy_from_slice(&src)
                 }
             }
             GOp::CopyFromToodee { src, dc, dr, transposed, clone } => {
                 let (sc, sr) = src_shape(c, r, *dc, *dr, *transposed);
-                let vals = src_values::<K>(sc * sr, seed);
+                let vals = src_values::<$K>(sc * sr, $seed);
                 match src {
                     SrcKind::Owned => {
                         let s = TooDee::from_vec(sc, sr, vals);
                         if *clone {
-                            x.clone_from_toodee(&s)
+                            $x.clone_from_toodee(&s)
                         } else {
-                            x.copy_from_toodee(&s)
+                            $x.copy_from_toodee(&s)
                         }
                     }
                     SrcKind::View | SrcKind::StridedView | SrcKind::ViewMut => {
                         // embed the source in a bigger parent (margins 1,2 / 2,1) unless plain View
                         let (ml, mt, mr_, mb) = if *src == SrcKind::View || sc == 0 { (0, 0, 0, 0) } else { (1, 2, 2, 1) };
                         let (bc, br) = if sc == 0 { (0, 0) } else { (sc + ml + mr_, sr + mt + mb) };
-                        let mut big = TooDee::init(bc, br, K::make((9 << 16) | 0x7777));
+                        let mut big = TooDee::init(bc, br, <$K>::make((9 << 16) | 0x7777));
                         let mut i = 0;
                         for y in 0..sr {
                             for xx in 0..sc {
@@ -463,93 +502,143 @@ fn apply<K: Cell, X: TooDeeOpsMut<K> + CopyOps<K>>(x: &mut X, op: &GOp, seed: u3
                         if *src == SrcKind::ViewMut {
                             let v = big.view_mut((ml, mt), (ml + sc, mt + sr));
                             if *clone {
-                                x.clone_from_toodee(&v)
+                                $x.clone_from_toodee(&v)
                             } else {
-                                x.copy_from_toodee(&v)
+                                $x.copy_from_toodee(&v)
                             }
                         } else {
                             let v = big.view((ml, mt), (ml + sc, mt + sr));
                             if *clone {
-                                x.clone_from_toodee(&v)
+                                $x.clone_from_toodee(&v)
                             } else {
-                                x.copy_from_toodee(&v)
+                                $x.copy_from_toodee(&v)
                             }
                         }
                     }
                 }
             }
-            GOp::CopyWithin { src, dest } => x.copy_within(((us(src[0]), us(src[1])), (us(src[2]), us(src[3]))), (us(dest[0]), us(dest[1]))),
-            GOp::Translate(mc, mr) => x.translate_with_wrap((us(*mc), us(*mr))),
-            GOp::FlipRows => x.flip_rows(),
-            GOp::FlipCols => x.flip_cols(),
+            GOp::CopyWithin { src, dest } => $x.copy_within(((us(src[0]), us(src[1])), (us(src[2]), us(src[3]))), (us(dest[0]), us(dest[1]))),
+            GOp::Translate(mc, mr) => $x.translate_with_wrap((us(*mc), us(*mr))),
+            GOp::FlipRows => $x.flip_rows(),
+            GOp::FlipCols => $x.flip_cols(),
             GOp::Sort { form, line, keyfn } => {
                 let l = us(*line);
                 let f = *keyfn;
                 match *form % 11 {
-                    0 => x.sort_by_row(l, |a, b| kf(a.key(), f).cmp(&kf(b.key(), f))),
-                    1 => x.sort_by_row_key(l, |a| kf(a.key(), f)),
-                    2 => x.sort_row_ord::<()>(l),
-                    3 => x.sort_unstable_by_row(l, |a, b| kf(a.key(), f).cmp(&kf(b.key(), f))),
-                    4 => x.sort_unstable_by_row_key(l, |a| kf(a.key(), f)),
-                    5 => x.sort_unstable_row_ord::<()>(l),
-                    6 => x.sort_by_col(l, |a, b| kf(a.key(), f).cmp(&kf(b.key(), f))),
-                    7 => x.sort_by_col_key(l, |a| kf(a.key(), f)),
-                    8 => x.sort_col_ord::<()>(l),
-                    9 => x.sort_unstable_by_col(l, |a, b| kf(a.key(), f).cmp(&kf(b.key(), f))),
-                    _ => x.sort_unstable_by_col_key(l, |a| kf(a.key(), f)),
+                    0 => $x.sort_by_row(l, |a, b| kf(a.key(), f).cmp(&kf(b.key(), f))),
+                    1 => by_key!($x, sort_by_row_key, l, f),
+                    2 => $x.sort_row_ord::<()>(l),
+                    3 => $x.sort_unstable_by_row(l, |a, b| kf(a.key(), f).cmp(&kf(b.key(), f))),
+                    4 => by_key!($x, sort_unstable_by_row_key, l, f),
+                    5 => $x.sort_unstable_row_ord::<()>(l),
+                    6 => $x.sort_by_col(l, |a, b| kf(a.key(), f).cmp(&kf(b.key(), f))),
+                    7 => by_key!($x, sort_by_col_key, l, f),
+                    8 => $x.sort_col_ord::<()>(l),
+                    9 => $x.sort_unstable_by_col(l, |a, b| kf(a.key(), f).cmp(&kf(b.key(), f))),
+                    _ => by_key!($x, sort_unstable_by_col_key, l, f),
                 }
             }
             GOp::IdxWrite(cx, ry, via_row) => {
                 if *via_row {
-                    x[us(*ry)][us(*cx)] = K::make(fresh(0, seed));
+                    $x[us(*ry)][us(*cx)] = <$K>::make(fresh(0, $seed));
                 } else {
-                    x[(us(*cx), us(*ry))] = K::make(fresh(0, seed));
+                    $x[(us(*cx), us(*ry))] = <$K>::make(fresh(0, $seed));
                 }
             }
             GOp::RowsMutWrite { rev, step, skip } => {
                 let mut i = 0;
-                let mut w = |row: &mut [K]| {
+                let mut w = |row: &mut [$K]| {
                     for v in row.iter_mut() {
-                        *v = K::make(fresh(i, seed));
+                        *v = <$K>::make(fresh(i, $seed));
                         i += 1;
                     }
                 };
                 let st = (*step).max(1) as usize;
                 if *rev {
-                    x.rows_mut().rev().skip(*skip as usize).step_by(st).for_each(|row| w(row));
+                    $x.rows_mut().rev().skip(*skip as usize).step_by(st).for_each(|row| w(row));
                 } else {
-                    x.rows_mut().skip(*skip as usize).step_by(st).for_each(|row| w(row));
+                    $x.rows_mut().skip(*skip as usize).step_by(st).for_each(|row| w(row));
                 }
             }
             GOp::ColMutWrite { c: cx, rev, step, skip } => {
                 let mut i = 0;
                 let st = (*step).max(1) as usize;
-                let mut w = |v: &mut K| {
-                    *v = K::make(fresh(i, seed));
+                let mut w = |v: &mut $K| {
+                    *v = <$K>::make(fresh(i, $seed));
                     i += 1;
                 };
                 if *rev {
-                    x.col_mut(us(*cx)).rev().skip(*skip as usize).step_by(st).for_each(|v| w(v));
+                    $x.col_mut(us(*cx)).rev().skip(*skip as usize).step_by(st).for_each(|v| w(v));
                 } else {
-                    x.col_mut(us(*cx)).skip(*skip as usize).step_by(st).for_each(|v| w(v));
+                    $x.col_mut(us(*cx)).skip(*skip as usize).step_by(st).for_each(|v| w(v));
                 }
             }
             GOp::CellsMutWrite { rev, step, skip } => {
                 let mut i = 0;
                 let st = (*step).max(1) as usize;
-                let mut w = |v: &mut K| {
-                    *v = K::make(fresh(i, seed));
+                let mut w = |v: &mut $K| {
+                    *v = <$K>::make(fresh(i, $seed));
                     i += 1;
                 };
                 if *rev {
-                    x.cells_mut().rev().skip(*skip as usize).step_by(st).for_each(|v| w(v));
+                    $x.cells_mut().rev().skip(*skip as usize).step_by(st).for_each(|v| w(v));
                 } else {
-                    x.cells_mut().skip(*skip as usize).step_by(st).for_each(|v| w(v));
+                    $x.cells_mut().skip(*skip as usize).step_by(st).for_each(|v| w(v));
                 }
             }
         }
         None
     })
+    }};
+}
+
+/// How an operation reaches the receiver: through the concrete type (inherent methods first,
+/// `IntoIterator for &mut X`) or through the traits only (third-party implementors).
+pub trait Applier<K: Cell> {
+    fn apply_op(&mut self, op: &GOp, seed: u32) -> Result<Option<String>, String>;
+}
+impl<K: Cell> Applier<K> for TooDee<K> {
+    fn apply_op(&mut self, op: &GOp, seed: u32) -> Result<Option<String>, String> {
+        let x = self;
+        if let GOp::CellsMutWrite { rev: false, step: 1, skip: 0 } = op {
+            // `for v in &mut array`
+            return catch(|| {
+                let mut i = 0;
+                for v in &mut *x {
+                    *v = K::make(fresh(i, seed));
+                    i += 1;
+                }
+                None
+            });
+        }
+        apply_body!(x, op, seed, K)
+    }
+}
+impl<'a, K: Cell> Applier<K> for TooDeeViewMut<'a, K> {
+    fn apply_op(&mut self, op: &GOp, seed: u32) -> Result<Option<String>, String> {
+        let x = self;
+        if let GOp::CellsMutWrite { rev: false, step: 1, skip: 0 } = op {
+            // `for v in &mut view` (the impl ties the borrow to the view's own lifetime, hence a
+            // full-size sub-view that lives just for the loop)
+            return catch(|| {
+                let mut i = 0;
+                let (c, r) = (x.num_cols(), x.num_rows());
+                let mut sub = x.view_mut((0, 0), (c, r));
+                for v in &mut sub {
+                    *v = K::make(fresh(i, seed));
+                    i += 1;
+                }
+                None
+            });
+        }
+        apply_body!(x, op, seed, K)
+    }
+}
+impl<'a, K: Cell, X: TooDeeOpsMut<K>> Applier<K> for Thin<'a, K, X> {
+    fn apply_op(&mut self, op: &GOp, seed: u32) -> Result<Option<String>, String> {
+        let x = self;
+        apply_body!(x, op, seed, K)
+    }
 }
 
 macro_rules! with_recv {
@@ -592,7 +681,14 @@ macro_rules! with_recv {
 
 pub fn build_parent<K: Cell>(k: &GridCase, lay: &Layout) -> TooDee<K> {
     let n = lay.pc * lay.pr;
-    let mut v: Vec<K> = (0..n).map(|i| K::make(((key_of(k.keyseed, i, k.alphabet) as u64) << 16) | (i as u64 & 0xffff))).collect();
+    let wide = k.wide_alphabet as u64;
+    let mut v: Vec<K> = (0..n)
+        .map(|i| {
+            // wide alphabets: every value occurs (i % wide), in a scrambled order
+            let key = if wide > 0 { (i as u64).wrapping_mul(40503) % wide } else { key_of(k.keyseed, i, k.alphabet) as u64 };
+            K::make((key << 16) | (i as u64 & 0xffff))
+        })
+        .collect();
     // keys of the sort line
     if let GOp::Sort { form, line, .. } = &k.op {
         if !k.line_keys.is_empty() {
@@ -608,6 +704,15 @@ pub fn build_parent<K: Cell>(k: &GridCase, lay: &Layout) -> TooDee<K> {
                 }
             }
         }
+    }
+    if k.spare > 0 {
+        let n = v.len();
+        let extra = [1, lay.pc.saturating_sub(1).max(1), lay.pc.max(1), lay.pc + 1, 2 * lay.pc + 1, n / 2 + 1, n + 1, 3 * n + 7][(k.spare as usize - 1) % 8];
+        let mut w: Vec<K> = Vec::with_capacity(n + extra);
+        w.extend(v);
+        v = w;
+    } else {
+        v.shrink_to_fit();
     }
     TooDee::from_vec(lay.pc, lay.pr, v)
 }
@@ -660,12 +765,18 @@ pub fn run(k: &GridCase, focus: Focus, ctx: &mut Ctx) -> Result<Outcome, Failure
         CellKind::K1 => K1::NAME,
         CellKind::K20 => K20::NAME,
         CellKind::Fat => Fat::NAME,
+        CellKind::K2 => K2::NAME,
+        CellKind::K8 => K8::NAME,
+        CellKind::K16 => K16::NAME,
     });
     match k.cell {
         CellKind::Kc => run_t::<Kc>(k, focus, ctx),
         CellKind::K1 => run_t::<K1>(k, focus, ctx),
         CellKind::K20 => run_t::<K20>(k, focus, ctx),
         CellKind::Fat => run_t::<Fat>(k, focus, ctx),
+        CellKind::K2 => run_t::<K2>(k, focus, ctx),
+        CellKind::K8 => run_t::<K8>(k, focus, ctx),
+        CellKind::K16 => run_t::<K16>(k, focus, ctx),
     }
 }
 
@@ -710,7 +821,7 @@ fn step_t<K: Cell>(k: &GridCase, gop: &GOp, step: usize, parent: &mut TooDee<K>,
         if x.num_cols() != c || x.num_rows() != r {
             Err(format!("receiver has size ({},{}) instead of ({},{})", x.num_cols(), x.num_rows(), c, r))
         } else {
-            apply::<K, _>(x, gop, seed)
+            x.apply_op(gop, seed)
         }
     });
     let after = parent_model(&*parent);
@@ -815,9 +926,10 @@ fn step_t<K: Cell>(k: &GridCase, gop: &GOp, step: usize, parent: &mut TooDee<K>,
     }
     // C04 differential: the same operation on an owned copy of the window
     if focus == Focus::ViewIsolation && k.recv.is_view() {
-        let flat: Vec<K> = w.flat().into_iter().map(K::make).collect();
+        let mut flat: Vec<K> = Vec::with_capacity(c * r + if k.spare > 0 { [1, c.saturating_sub(1).max(1), c.max(1), c + 1, 2 * c + 1, c * r / 2 + 1, c * r + 1, 3 * c * r + 7][(k.spare as usize - 1) % 8] } else { 0 });
+        flat.extend(w.flat().into_iter().map(K::make));
         let mut owned = TooDee::from_vec(c, r, flat);
-        let r2 = apply::<K, _>(&mut owned, gop, seed);
+        let r2 = owned.apply_op(gop, seed);
         ensure!(matches!(r2, Ok(None)), "differential/owned-copy-failed", "{}: the same operation on an owned copy failed: {:?}", desc(), r2);
         let om = parent_model(&owned);
         let got_w = if c > 0 { after.window(lay.o, (lay.o.0 + c, lay.o.1 + r)) } else { Model::new() };
@@ -1002,7 +1114,7 @@ pub fn enum_wraps(cols: u8, rows: u8, recv: Recv, keep: &dyn Fn(&GOp) -> bool, e
         }
         for op in ops {
             if keep(&op) {
-                emit(GridCase { cell: CellKind::Kc, cols, rows, recv, keyseed: 77, alphabet: 3, line_keys: vec![], op, big: (0, 0), more: vec![] });
+                emit(GridCase { cell: CellKind::Kc, cols, rows, recv, keyseed: 77, alphabet: 3, line_keys: vec![], op, big: (0, 0), more: vec![], spare: 0, wide_alphabet: 0 });
             }
         }
     }
@@ -1022,12 +1134,19 @@ fn fat_ok(k: &GridCase) -> bool {
 
 /// 12% of the cases run on another cell type: 1 byte, 20 bytes, 4800 bytes
 pub fn with_cells(s: BoxedStrategy<GridCase>) -> BoxedStrategy<GridCase> {
-    (s, prop_oneof![88 => Just(CellKind::Kc), 5 => Just(CellKind::K1), 5 => Just(CellKind::K20), 2 => Just(CellKind::Fat)])
+    let s = (s, prop_oneof![76 => Just(CellKind::Kc), 4 => Just(CellKind::K1), 4 => Just(CellKind::K2), 5 => Just(CellKind::K8), 4 => Just(CellKind::K16), 5 => Just(CellKind::K20), 2 => Just(CellKind::Fat)])
         .prop_map(|(mut k, cell)| {
             k.cell = if cell == CellKind::Fat && !fat_ok(&k) { CellKind::K20 } else { cell };
             k
         })
-        .boxed()
+        .boxed();
+    // spare capacity of the root buffer: exact in 55 % of the cases
+    let s = (s, prop_oneof![11 => Just(0u8), 9 => 1u8..=8])
+        .prop_map(|(mut k, spare)| {
+            k.spare = spare;
+            k
+        });
+    s.boxed()
 }
 
 /// lengths around the thresholds a size-dependent code path is likely to use
@@ -1038,12 +1157,35 @@ pub fn with_big(s: BoxedStrategy<GridCase>) -> BoxedStrategy<GridCase> {
     (s, prop::bool::weighted(0.0015), 0usize..BIG_DIMS.len(), any::<bool>(), 1u8..=3)
         .prop_map(|(mut k, big, i, wide, other)| {
             if big && matches!(k.cell, CellKind::Kc | CellKind::K1) && matches!(k.recv.kind, RecvKind::Owned | RecvKind::ViewMut | RecvKind::Thin) {
+                let (oc, or) = (k.cols.max(1) as u64, k.rows.max(1) as u64);
                 if wide {
                     k.big = (BIG_DIMS[i], 0);
                     k.rows = other;
                 } else {
                     k.big = (0, BIG_DIMS[i]);
                     k.cols = other;
+                }
+                // stretch the operation's coordinates along the enlarged axis (valid ones stay valid)
+                let (nc, nr) = (k.dims().0 as u64, k.dims().1 as u64);
+                let sx = |v: &mut u64| if *v <= oc { *v = (*v * nc / oc).min(nc) };
+                let sy = |v: &mut u64| if *v <= or { *v = (*v * nr / or).min(nr) };
+                let ix = |v: &mut u64| if *v < oc { *v = *v * nc / oc };
+                let iy = |v: &mut u64| if *v < or { *v = *v * nr / or };
+                match &mut k.op {
+                    GOp::CopyWithin { src, dest } => {
+                        sx(&mut src[0]); sy(&mut src[1]); sx(&mut src[2]); sy(&mut src[3]); sx(&mut dest[0]); sy(&mut dest[1]);
+                        // keep the destination inside
+                        let (w, h) = (src[2].saturating_sub(src[0]), src[3].saturating_sub(src[1]));
+                        if src[2] <= nc && dest[0] <= nc && dest[0] + w > nc { dest[0] = nc - w; }
+                        if src[3] <= nr && dest[1] <= nr && dest[1] + h > nr { dest[1] = nr - h; }
+                    }
+                    GOp::Translate(a, b) => { sx(a); sy(b); }
+                    GOp::Swap(a) => { ix(&mut a[0]); iy(&mut a[1]); ix(&mut a[2]); iy(&mut a[3]); }
+                    GOp::SwapRows(a, b) | GOp::RowPairMut(a, b) => { iy(a); iy(b); }
+                    GOp::SwapCols(a, b) => { ix(a); ix(b); }
+                    GOp::IdxWrite(a, b, _) => { ix(a); iy(b); }
+                    GOp::ColMutWrite { c, .. } => ix(c),
+                    _ => {}
                 }
             }
             k
@@ -1054,10 +1196,13 @@ pub fn with_big(s: BoxedStrategy<GridCase>) -> BoxedStrategy<GridCase> {
 /// Wraps an enumeration sink: every 5th case is repeated with the other cell types in turn.
 pub fn emit_cells<'a>(emit: &'a mut dyn FnMut(GridCase)) -> impl FnMut(GridCase) + 'a {
     let mut n = 0u64;
-    move |k: GridCase| {
+    move |mut k: GridCase| {
         n += 1;
+        if n % 3 == 0 {
+            k.spare = 1 + (n / 3 % 8) as u8;
+        }
         if n % 5 == 0 {
-            let cell = [CellKind::K1, CellKind::K20, CellKind::Fat][(n / 5 % 3) as usize];
+            let cell = [CellKind::K1, CellKind::K20, CellKind::Fat, CellKind::K2, CellKind::K8, CellKind::K16][(n / 5 % 6) as usize];
             let mut k2 = k.clone();
             k2.cell = if cell == CellKind::Fat && !fat_ok(&k2) { CellKind::K20 } else { cell };
             emit(k2);
@@ -1093,7 +1238,7 @@ pub fn sanitize(k: &mut GridCase, max: u8, views_only: bool) -> bool {
 }
 
 fn case(cols: u8, rows: u8, recv: Recv, keyseed: u32, op: GOp) -> GridCase {
-    GridCase { cell: CellKind::Kc, cols, rows, recv, keyseed, alphabet: 4, line_keys: vec![], op, big: (0, 0), more: vec![] }
+    GridCase { cell: CellKind::Kc, cols, rows, recv, keyseed, alphabet: 4, line_keys: vec![], op, big: (0, 0), more: vec![], spare: 0, wide_alphabet: 0 }
 }
 
 fn enum_recvs() -> Vec<Recv> {
@@ -1502,12 +1647,12 @@ fn sort_enumerate(by_row: bool, tier: Tier, emit: &mut dyn FnMut(GridCase)) {
                     for fi in 0..nforms {
                         let form = forms[fi];
                         let ord = matches!(form, 2 | 5 | 8);
-                        for keyfn in if ord { 0..1u8 } else { 0..3u8 } {
+                        for keyfn in if ord { 0..1u8 } else { 0..8u8 } {
                             // to bound the work, the non-identity key functions run on the 3-wide shape only
                             if keyfn > 0 && other == 1 {
                                 continue;
                             }
-                            emit(GridCase { cell: CellKind::Kc, cols, rows, recv, keyseed: code as u32, alphabet: 3, line_keys: keys.clone(), op: GOp::Sort { form, line, keyfn }, big: (0, 0), more: vec![] });
+                            emit(GridCase { cell: CellKind::Kc, cols, rows, recv, keyseed: code as u32, alphabet: 3, line_keys: keys.clone(), op: GOp::Sort { form, line, keyfn }, big: (0, 0), more: vec![], spare: 0, wide_alphabet: 0 });
                         }
                     }
                 }
@@ -1522,10 +1667,19 @@ fn sort_enumerate(by_row: bool, tier: Tier, emit: &mut dyn FnMut(GridCase)) {
                 let dim = if by_row { rows } else { cols } as u64;
                 for fi in 0..nforms {
                     for line in [dim, dim + 1, u64::MAX] {
-                        emit(GridCase { cell: CellKind::Kc, cols, rows, recv, keyseed: 5, alphabet: 3, line_keys: vec![], op: GOp::Sort { form: forms[fi], line, keyfn: 0 }, big: (0, 0), more: vec![] });
+                        emit(GridCase { cell: CellKind::Kc, cols, rows, recv, keyseed: 5, alphabet: 3, line_keys: vec![], op: GOp::Sort { form: forms[fi], line, keyfn: 0 }, big: (0, 0), more: vec![], spare: 0, wide_alphabet: 0 });
                     }
                 }
                 enum_wraps(cols, rows, recv, &|op| matches!(op, GOp::Sort { form, .. } if (*form < 6) == by_row), emit);
+            }
+        }
+    }
+    // key cardinalities around 256 on long lines (bucket / counting paths): 255, 256, 257, 258 distinct keys
+    for &wide in &[255u16, 256, 257, 258, 1000] {
+        for &n in &[1030u32, 2100] {
+            for fi in 0..nforms {
+                let (big, cols, rows) = if by_row { ((n, 0), 0u8, 2u8) } else { ((0, n), 2u8, 0u8) };
+                emit(GridCase { cell: CellKind::Kc, cols, rows, recv: Recv::owned(), keyseed: 3, alphabet: 3, line_keys: vec![], op: GOp::Sort { form: forms[fi], line: 0, keyfn: (fi % 3) as u8 }, big, more: vec![], spare: 0, wide_alphabet: wide });
             }
         }
     }
@@ -1535,7 +1689,7 @@ fn sort_enumerate(by_row: bool, tier: Tier, emit: &mut dyn FnMut(GridCase)) {
             for fi in 0..nforms {
                 for (keyfn, keys) in [(0u8, vec![2u8, 0, 1, 1, 0, 2, 1]), (1, vec![0, 0, 1, 2, 2, 1, 0, 1, 2, 0, 0])] {
                     let (big, cols, rows) = if by_row { ((n, 0), 0u8, 2u8) } else { ((0, n), 2u8, 0u8) };
-                    emit(GridCase { cell: CellKind::Kc, cols, rows, recv, keyseed: 9, alphabet: 3, line_keys: keys, op: GOp::Sort { form: forms[fi], line: 1, keyfn }, big, more: vec![] });
+                    emit(GridCase { cell: CellKind::Kc, cols, rows, recv, keyseed: 9, alphabet: 3, line_keys: keys, op: GOp::Sort { form: forms[fi], line: 1, keyfn }, big, more: vec![], spare: 0, wide_alphabet: 0 });
                 }
             }
         }
@@ -1551,7 +1705,7 @@ fn sort_strategy(by_row: bool) -> BoxedStrategy<GridCase> {
         3 => (2u8..=20, 1u8..=8),
         1 => (1u8..=2, 1u8..=3),
     ];
-    let s = (shape, recv_any(), any::<u32>(), 2u8..=4, 0u8..6, 0u8..3, any::<u16>(), prop::bool::weighted(0.06), 0u8..14)
+    let s = (shape, recv_any(), any::<u32>(), 2u8..=4, 0u8..6, 0u8..8, any::<u16>(), prop::bool::weighted(0.06), 0u8..14)
         .prop_map(move |((len, other), recv, keyseed, alphabet, f, keyfn, lfrac, bad, pattern)| {
             let (cols, rows) = if by_row { (len, other) } else { (other, len) };
             let form = if by_row { f } else { 6 + f % 5 };
@@ -1572,7 +1726,7 @@ fn sort_strategy(by_row: bool) -> BoxedStrategy<GridCase> {
                 6 => (0..n).map(|i| if i == 0 { (a - 1) as u8 } else { asc(i) }).collect(),
                 _ => vec![],
             };
-            GridCase { cell: CellKind::Kc, cols, rows, recv, keyseed, alphabet, line_keys, op: GOp::Sort { form, line, keyfn }, big: (0, 0), more: vec![] }
+            GridCase { cell: CellKind::Kc, cols, rows, recv, keyseed, alphabet, line_keys, op: GOp::Sort { form, line, keyfn }, big: (0, 0), more: vec![], spare: 0, wide_alphabet: 0 }
         })
         .boxed();
     with_wraps(s)
@@ -1751,8 +1905,8 @@ pub fn valid_op(cols: u8, rows: u8) -> BoxedStrategy<GOp> {
         v.push((3, (vi(c), vi(c)).prop_map(|(a, b)| GOp::SwapCols(a, b)).boxed()));
         v.push((2, (vi(c), vi(r), any::<bool>()).prop_map(|(a, b, via)| GOp::IdxWrite(a, b, via)).boxed()));
         v.push((3, (vi(c), any::<bool>(), 1u8..4, 0u8..4).prop_map(|(cc, rev, step, skip)| GOp::ColMutWrite { c: cc, rev, step, skip }).boxed()));
-        v.push((5, (0u8..6, vi(r), 0u8..3).prop_map(|(form, line, keyfn)| GOp::Sort { form, line, keyfn }).boxed()));
-        v.push((5, (6u8..11, vi(c), 0u8..3).prop_map(|(form, line, keyfn)| GOp::Sort { form, line, keyfn }).boxed()));
+        v.push((5, (0u8..6, vi(r), 0u8..8).prop_map(|(form, line, keyfn)| GOp::Sort { form, line, keyfn }).boxed()));
+        v.push((5, (6u8..11, vi(c), 0u8..8).prop_map(|(form, line, keyfn)| GOp::Sort { form, line, keyfn }).boxed()));
         if rows > 1 {
             v.push((2, (vi(r), 1..r).prop_map(move |(a, off)| GOp::RowPairMut(a, (a + off) % r)).boxed()));
         }
@@ -1811,7 +1965,7 @@ impl Prop for C04 {
                         ops.push(GOp::Sort { form, line: 0, keyfn: 1 });
                     }
                     for op in ops {
-                        emit(GridCase { cell: CellKind::Kc, cols, rows, recv, keyseed: (cols as u32) * 16 + rows as u32, alphabet: 3, line_keys: vec![], op, big: (0, 0), more: vec![] });
+                        emit(GridCase { cell: CellKind::Kc, cols, rows, recv, keyseed: (cols as u32) * 16 + rows as u32, alphabet: 3, line_keys: vec![], op, big: (0, 0), more: vec![], spare: 0, wide_alphabet: 0 });
                     }
                 }
             }
@@ -1830,11 +1984,11 @@ impl Prop for C04 {
                     (idx(er), idx(er)).prop_map(|(a, b)| GOp::RowPairMut(a, b)),
                     (bound(ec), bound(er)).prop_map(|(a, b)| GOp::Translate(a, b)),
                     (bound(ec), bound(er), bound(ec), bound(er), bound(ec), bound(er)).prop_map(|(a, b, c, d, e, f)| GOp::CopyWithin { src: [a.min(c), b.min(d), a.max(c), b.max(d)], dest: [e, f] }),
-                    (0u8..11, idx(er.max(ec)), 0u8..3).prop_map(|(form, line, keyfn)| GOp::Sort { form, line, keyfn }),
+                    (0u8..11, idx(er.max(ec)), 0u8..8).prop_map(|(form, line, keyfn)| GOp::Sort { form, line, keyfn }),
                     (idx(ec), idx(er), any::<bool>()).prop_map(|(a, b, via)| GOp::IdxWrite(a, b, via)),
                     (idx(ec), any::<bool>(), 1u8..3, 0u8..3).prop_map(|(cc, rev, step, skip)| GOp::ColMutWrite { c: cc, rev, step, skip }),
                 ];
-                (prop_oneof![9 => valid_op(ec, er), 1 => maybe_invalid.boxed()], prop_oneof![3 => Just(vec![]).boxed(), 1 => prop::collection::vec(valid_op(ec, er), 1..4).boxed()]).prop_map(move |(op, more)| GridCase { cell: CellKind::Kc, cols, rows, recv, keyseed: seed, alphabet, line_keys: vec![], op, big: (0, 0), more })
+                (prop_oneof![9 => valid_op(ec, er), 1 => maybe_invalid.boxed()], prop_oneof![3 => Just(vec![]).boxed(), 1 => prop::collection::vec(valid_op(ec, er), 1..4).boxed()]).prop_map(move |(op, more)| GridCase { cell: CellKind::Kc, cols, rows, recv, keyseed: seed, alphabet, line_keys: vec![], op, big: (0, 0), more, spare: 0, wide_alphabet: 0 })
             })
             .boxed();
         with_wraps(s)
